@@ -1530,6 +1530,31 @@ def m_strchr(it, args, e):
     return None if i is None else Ptr(s.obj, s.path[:-1] + (s.path[-1] + i,))
 
 
+def m_strstr(it, args, e):
+    s, n = args
+    hay = bytes(read_cstr(it, s)); nd = bytes(read_cstr(it, n))
+    i = hay.find(nd)
+    return None if i < 0 else Ptr(s.obj, s.path[:-1] + (s.path[-1] + i,))
+
+
+def m_strpbrk(it, args, e):
+    s, acc = args
+    hay = bytes(read_cstr(it, s)); a = bytes(read_cstr(it, acc))
+    for i, b in enumerate(hay):
+        if b in a:
+            return Ptr(s.obj, s.path[:-1] + (s.path[-1] + i,))
+    return None
+
+
+def m_errno_location(it, args, e):
+    """glibc's `errno` is (*__errno_location()): one int object per interpreter"""
+    o = it.user.get('errno-object')
+    if o is None:
+        o = Obj('errno', 'global'); o.f[()] = 0
+        it.user['errno-object'] = o
+    return Ptr(o, ())
+
+
 def m_strrchr(it, args, e):
     s, c = args
     if isinstance(s, Ptr) and getattr(s.obj, 'symstr', None) is not None:
@@ -1602,7 +1627,7 @@ DEFAULT_MODELS = {
     'malloc': m_alloc, 'xmalloc': m_alloc, 'calloc': m_alloc,
     'free': m_free, 'memset': m_memset,
     'strlen': m_strlen, 'strcmp': m_strcmp, 'strncmp': m_strncmp, 'memcmp': m_memcmp,
-    'strchr': m_strchr, 'strrchr': m_strrchr,
+    'strchr': m_strchr, 'strrchr': m_strrchr, 'strstr': m_strstr, 'strpbrk': m_strpbrk, '__errno_location': m_errno_location,
     'isdigit': _ctype(lambda c: 48 <= c <= 57),
     'isalpha': _ctype(lambda c: 65 <= c <= 90 or 97 <= c <= 122),
     'isalnum': _ctype(lambda c: 48 <= c <= 57 or 65 <= c <= 90 or 97 <= c <= 122),
